@@ -13,6 +13,7 @@ Decided
   D1  NaN and inf are scrubbed iff the array is not memory-mapped; every array is squeezed; documented defaults for
       absent optional files (identity whitening, zero shanks / probes, zero similarity, amplitudes None)
   P1  the monotonicity test raises before any write effect
+  +   the blanking of unused templates: only templates that are NaN on EVERY sample and channel (mask taken on the whole array) are zeroed
 Not decided: equality of the loaded values with the file contents, dtype assertions, exec of params.py.
 """
 import ast
@@ -200,6 +201,20 @@ def t1_t2_names(ctx):
                 if q.method_name(c) != '_find_path':
                     continue
                 names_ = tuple(const_value(a) for a in c.args)
+                if f_ is not fi and len(c.args) == 1 and isinstance(c.args[0], ast.Starred) and isinstance(c.args[0].value, ast.Name) and c.args[0].value.id == f_.vararg and \
+                        f_.unique_def(f_.vararg) is None:
+                    # helper(*names) forwarding its names: _find_path(*names) - one lookup per call site of the helper, the names are its extra positional arguments
+                    npos = len(f_.real_params)
+                    for g_ in clo:
+                        for c2 in g_.calls():
+                            try:
+                                tg = repo.resolve_call(g_, c2, virtual=False)
+                            except Exception:
+                                tg = []
+                            if any(t.node is f_.node for t in tg) and not any(isinstance(a, ast.Starred) for a in c2.args):
+                                calls.append(c2)
+                                got.append(tuple(const_value(a) for a in c2.args[npos:]))
+                    continue
                 if None in names_ and f_ is not fi and all(isinstance(a, ast.Name) and a.id in f_.real_params for a in c.args):
                     # a helper extracted after the pinned tree that receives the file name(s): one lookup per call site of the helper
                     idx = [f_.real_params.index(a.id) for a in c.args]
@@ -534,6 +549,29 @@ def d1_defaults(ctx):
                     for s_ in h.body:
                         if isinstance(s_, ast.Return):
                             out.append((fi, s_))
+        # the same default one level up: a helper (extracted after the pinned tree) answers None for the missing file, and the loader returns the default on `x is None`
+        clo_ = [h_ for h_ in repo.transparent_closure(fi) if h_ is not fi]
+        none_helpers = []
+        for h_ in clo_:
+            for t in h_.nodes(ast.Try):
+                for h in t.handlers:
+                    if h.type is not None and any(x in unparse(h.type) for x in ('IOError', 'OSError', 'FileNotFoundError')) and \
+                            any(isinstance(s_, ast.Return) and (s_.value is None or (isinstance(s_.value, ast.Constant) and s_.value.value is None)) for s_ in h.body):
+                        none_helpers.append(h_)
+        if none_helpers and not out:
+            for i in fi.nodes(ast.If):
+                b = Pat(fi).m('V_x is None', i.test)
+                if b is None:
+                    continue
+                nm = [n for n in ast.walk(i.test) if isinstance(n, ast.Name)]
+                d_ = (fi.reaching_def(nm[0]) or fi.unique_def(nm[0].id)) if nm else None
+                if isinstance(d_, ast.Call):
+                    try:
+                        tg = repo.resolve_call(fi, d_, virtual=False)
+                    except Exception:
+                        tg = []
+                    if any(t_.node is h_.node for t_ in tg for h_ in none_helpers):
+                        out.extend((fi, s_) for s_ in i.body if isinstance(s_, ast.Return))
         return fi, out
 
     def ret_text(fi, r_):
@@ -598,6 +636,46 @@ def d1_defaults(ctx):
             'the inverse whitening matrix is the matrix inverse of the whitening matrix', 'the inverse whitening matrix is not np.linalg.inv(wm)', 'computation of the inverse whitening matrix not recognised')
 
 
+def d1_blank_templates(ctx):
+    """Template waveforms equal the file, except templates that are NaN EVERYWHERE (unused templates), which are zeroed: the mask of the zeroed templates must be
+    `all samples and all channels are NaN`, taken on the whole waveform array."""
+    repo = ctx.repo
+    cls = repo.cls(M, 'TemplateModel')
+    fi = repo.lookup_method(cls, '_load_templates')
+    if fi is None:
+        raise AnchorMissing('TemplateModel._load_templates')
+    stores = []
+    for a in fi.nodes(ast.Assign):
+        t = a.targets[0]
+        if isinstance(t, ast.Subscript) and isinstance(t.value, ast.Name) and const_value(a.value) in (0, 0.0) and not isinstance(const_value(a.value), bool):
+            ix = t.slice.elts[0] if isinstance(t.slice, ast.Tuple) else t.slice
+            if isinstance(ix, ast.Slice) or const_value(ix) is not None:
+                continue
+            stores.append((a, t.value.id, ix))
+    if not stores:
+        ctx.undecided('C04.D1', fi, 'no store zeroing the unused (all-NaN) templates found in _load_templates')
+        return
+    for a, arr, ix in stores:
+        m = fi.expand(ix)
+        D = arr
+        good = Pat().any(['np.all(np.all(np.isnan(%s), axis=1), axis=1)' % D, 'np.all(np.isnan(%s), axis=(1, 2))' % D, 'np.isnan(%s).all(axis=(1, 2))' % D,
+                          'np.isnan(%s).all(axis=1).all(axis=1)' % D, 'np.isnan(%s).all(axis=2).all(axis=1)' % D, 'np.all(np.all(np.isnan(%s), axis=2), axis=1)' % D,
+                          'np.isnan(%s).reshape(ANY, -1).all(axis=1)' % D, 'np.all(np.isnan(%s).reshape(ANY, -1), axis=1)' % D,
+                          'np.all(np.isnan(%s), axis=(2, 1))' % D, '~np.any(np.any(~np.isnan(%s), axis=1), axis=1)' % D], m)
+        calls = [c for c in ast.walk(m) if isinstance(c, ast.Call)]
+        nan_args = [c.args[0] for c in calls if dotted(c.func) in ('np.isnan', 'numpy.isnan') and c.args]
+        partial = any(isinstance(x, ast.Subscript) for x in nan_args)          # isnan of a slice of the waveforms: only part of each template is looked at
+        any_red = any((dotted(c.func) in ('np.any',) or q.method_name(c) == 'any') for c in calls) and not any(isinstance(n_, ast.Invert) for n_ in ast.walk(m))
+        n_red = sum(1 for c in calls if dotted(c.func) in ('np.all', 'np.any') or q.method_name(c) in ('all', 'any'))
+        one_axis = bool(nan_args) and not partial and n_red == 1 and not any(isinstance(k.value, ast.Tuple) for c in calls for k in c.keywords if k.arg == 'axis') and \
+            not any(q.method_name(c) == 'reshape' for c in calls)
+        other_pred = not nan_args and any(dotted(c.func) in ('np.isinf', 'np.isfinite') or (isinstance(n_, ast.Compare)) for c in calls for n_ in [c]) and bool(calls)
+        ctx.tri(bool(good), (not good) and (partial or any_red or one_axis or other_pred), 'C04.D1', fi, a,
+                'only templates that are NaN on every sample and channel are zeroed; all other template waveforms are the file contents',
+                'templates are zeroed on the mask `%s`, which is not "NaN on every sample and every channel": a template with valid values is wiped and no longer equals the file' % unparse(m)[:90],
+                'the mask of the zeroed templates (`%s`) was not recognised' % unparse(m)[:90])
+
+
 def p1_monotonic(ctx, f, effs):
     repo = ctx.repo
     cls = repo.cls(M, 'TemplateModel')
@@ -641,6 +719,7 @@ def run(ctx):
     u1_units(ctx)
     a1_traces(ctx)
     d1_defaults(ctx)
+    ctx.part('C04.D1', d1_blank_templates)
     p1_monotonic(ctx, f, effs)
 
 
